@@ -119,7 +119,7 @@ func workerMain() {
 		}
 		exact := make([]byte, len(b)) // exact capacity
 		copy(exact, b)
-		outcome, re, extra, lenv := 0, []byte(nil), "", -1
+		outcome, re, extra, lenv, chash := 0, []byte(nil), "", -1, "-"
 		func() {
 			defer func() {
 				if r := recover(); r != nil {
@@ -142,6 +142,7 @@ func workerMain() {
 							extra = "reencode-panic"
 						}
 					}()
+					chash = canonHash(v)
 					lenv = int(v.Len())
 					re, _ = v.MarshalBinary()
 					extra = fmt.Sprintf("%T", v)
@@ -154,7 +155,7 @@ func workerMain() {
 		if extra == "" {
 			extra = "-"
 		}
-		fmt.Fprintf(out, "%d %s %s %d\n", outcome, hex.EncodeToString(re)+".", extra, lenv)
+		fmt.Fprintf(out, "%d %s %s %d %s\n", outcome, hex.EncodeToString(re)+".", extra, lenv, chash)
 		out.Flush()
 	}
 }
@@ -200,6 +201,7 @@ type wres struct {
 	re      []byte
 	extra   string
 	lenv    int
+	chash   string
 }
 
 func startWorker() (*Worker, error) {
@@ -253,10 +255,10 @@ func (p *WorkerPool) Run(dec string, b []byte) wres {
 			return wres{outcome: code, extra: "worker-died"}
 		}
 		var o, lv int
-		var reh, ex string
-		fmt.Sscanf(r.line, "%d %s %s %d", &o, &reh, &ex, &lv)
+		var reh, ex, ch string
+		fmt.Sscanf(r.line, "%d %s %s %d %s", &o, &reh, &ex, &lv, &ch)
 		re, _ := hex.DecodeString(strings.TrimSuffix(reh, "."))
-		return wres{o, re, ex, lv}
+		return wres{o, re, ex, lv, ch}
 	case <-time.After(3 * time.Second):
 		p.w.kill()
 		p.w = nil
